@@ -224,7 +224,8 @@ Print Assumptions C09_vertex_wrapper_total_rel.
      (N2)  |p.r - (a.r + b.r)/2| is not NaN for points of a cluster of the event (finite radii; discharged for binary64
            radii with |r| <= 1 m in C14_fit_skeleton_total_binary64),
      (V1)  z of the closest approach to the beamline is not NaN for the tracks of the event,
-     (V2)  sums of helix radii of sublists of those tracks are not NaN,
+     (V2bc) the sums of helix radii of the beamline clusters of those tracks - the sums max_by compares at
+           vertex_fitting.rs:45-51 - are not NaN (C14 states it for all lists of tracks of the event),
      (V5)  Track's derived PartialEq is reflexive on those tracks (no NaN field).
    LAWS / SHAPE (true of the real code, stated because the types are abstract): (C15) no Hough bin is listed twice for a
    point; (N1) IEEE: partial_cmp of two non-NaN numbers is Some (proved for binary64: Fit_proofs.fcmp_prim_total);
@@ -268,6 +269,7 @@ Theorem C09_vertex_total_partial :
   let fit := Fit.fit_cluster_to_helix F Cluster.point p_r p_x p_y flt feq fcmp fnan fadd fsub fmul fhalf fabs fzero
                guess6 bump point_val closest (fun c s => Fit.run_strategy c (ftree s)) sd_tol_ok in
   let vcost := Fit.vcost F fnan fadd fzero (Fit.track F) vcost_val in
+  let beamline_clusters := Fit.beamline_clusters F fcmp (Fit.track F) t_zb close_z mean_z sortP in
   let vertex_best := Fit.vertex_best F fcmp (Fit.track F) t_zb t_rad is_primary close_z sumF mean_z sortP in
   let find := Fit.find_vertices F vpoint fcmp fnan fadd fzero bump (fun c s => Fit.run_strategy c (vtree s)) sd_tol_ok
                 (Fit.track F) teq t_zb t_rad is_primary close_z sumF mean_z sortP vpoint_of vcost_val vguess tclosest in
@@ -289,9 +291,9 @@ Theorem C09_vertex_total_partial :
               forall s, fit_simplex c = Ok s -> Fit.wf_strategy good 6 [] (ftree s)) ->
   (* V1 *) (forall trs, vertex_tracks sp_of cluster fit avs = Ok trs ->
               forall a b, In a trs -> In b trs -> fcmp (t_zb a) (t_zb b) <> None) ->
-  (* V2 *) (forall trs, vertex_tracks sp_of cluster fit avs = Ok trs ->
-              forall x y, (forall t, In t x -> In t trs) -> (forall t, In t y -> In t trs) ->
-              fcmp (sumF (map t_rad x)) (sumF (map t_rad y)) <> None) ->
+  (* V2bc *) (forall trs, vertex_tracks sp_of cluster fit avs = Ok trs ->
+              forall bc a b, beamline_clusters (filter is_primary trs) = Ok bc -> In a bc -> In b bc ->
+              fcmp (sumF (map t_rad (fst a))) (sumF (map t_rad (fst b))) <> None) ->
   (* V3e *) (forall trs, vertex_tracks sp_of cluster fit avs = Ok trs ->
               forall ts mz s, vertex_best trs = Ok (Some (ts, mz)) -> Fit.initial_simplex F bump (vguess mz) = Ok s ->
               forall p, In p (Fit.asked (vcost ts) (vtree s)) -> exists y, vcost ts p = Ok y /\ good y) ->
